@@ -456,7 +456,7 @@ def run_generic(ctx):
 
 # ----------------------------------------------------------------------------- relational
 
-def run_to_dict(ctx, variant, cases, events, tag, threads=1, all_on_all=False):
+def run_to_dict(ctx, variant, cases, events, tag, threads=1, all_on_all=False, reuse=False):
     """Runs cases on a variant and returns {case id: output record} (and the summary record, if threaded)."""
     binp = common.build(variant)
     recs = {}
@@ -468,7 +468,7 @@ def run_to_dict(ctx, variant, cases, events, tag, threads=1, all_on_all=False):
         cout = os.path.join(ctx.dir, "rout-%s-%d.ndjson" % (tag, ci))
         common.write_cases(cin, chunk)
         r = common.lexrun(binp, cin, cout, events=events, chars=True, timeout=900, threads=threads,
-                          all_on_all=all_on_all)
+                          all_on_all=all_on_all, reuse=reuse)
         if r["timeout"] or r["rc"] != 0:
             raise ToolError("lexrun (%s) failed on a relational batch: %s" % (variant, r["out"][-500:]))
         for rec in common.read_ndjson(cout):
@@ -682,6 +682,13 @@ def run_c18(ctx):
 def run_c19(ctx):
     q = ctx.quick()
     base_inputs(ctx, soup_n=4000 if q else 60000, trunc_n=300 if q else 3000, mb_n=200 if q else 2000)
+    # neighbours in the run order that differ only in what follows a common prefix (address- or position-keyed caches)
+    adj = []
+    for pre in ["%if &a = 10 ", "%do i = 1 ", "%let x=%eval(1 ", "%if abc ", "%put %eval(a ", "x = 1 ", "%m(a ", "\"a "]:
+        for fol in ["%then %put y;", "%left(&b) = 7 %then;", "%to 5; %end;", "%nn 5; %end;", "%by 2;", "%str(a) ;", "%let b=1;", "%m(1);", "%mac2 ;",
+                    "%end;", "%eval(2));", "%*c; ;", "%lbl: ;"]:
+            adj.append(pre + fol)
+    ctx.add_cases("adjacent", adj)
     pick_samples(ctx)
     cases = list(ctx.cases.values())
     ref, _ = run_to_dict(ctx, "dbg", cases, events=True, tag="dbg")
@@ -714,6 +721,12 @@ def run_c19(ctx):
                         ({"id": c["id"], "a": strip_variant(rel[c["id"]], False), "b": strip_variant(rev[c["id"]], False)}
                          for c in cases))
     judge_pairs(ctx, "rel-rev", paths)
+    # history: a caller that reads every source into one reused buffer (all sources at the same address)
+    reu, _ = run_to_dict(ctx, "rel", cases, events=False, tag="reuse", reuse=True)
+    paths = write_pairs(ctx, "rel-reuse",
+                        ({"id": c["id"], "a": strip_variant(rel[c["id"]], False), "b": strip_variant(reu[c["id"]], False)}
+                         for c in cases))
+    judge_pairs(ctx, "rel-reuse", paths)
     statics = scan_shared_state()
     ctx.extra["shared_state_scan"] = statics
     return finish(ctx, "model_checking",
